@@ -44,6 +44,7 @@ type c06cfg struct {
 	DBWhite  []string `json:"db_whitelist,omitempty"`
 	Slots    []string `json:"slots,omitempty"`
 	Lua      bool     `json:"filter_lua"`
+	TargetDB int      `json:"target_db"` // -1 = keep the source database
 }
 
 func (c *c06cfg) ref() *reffilter.Config {
@@ -54,11 +55,27 @@ func (c *c06cfg) apply(base conf.Configuration) {
 	base.FilterKeyBlacklist, base.FilterKeyWhitelist = c.KeyBlack, c.KeyWhite
 	base.FilterDBBlacklist, base.FilterDBWhitelist = c.DBBlack, c.DBWhite
 	base.FilterSlot, base.FilterLua = c.Slots, c.Lua
+	base.TargetDB = c.TargetDB
 	conf.Options = base
 }
 
 func c06configs() []c06cfg {
+	cs := c06configsBase()
+	for i := range cs {
+		if !strings.Contains(cs[i].Name, "targetdb") {
+			cs[i].TargetDB = -1
+		}
+	}
+	return cs
+}
+
+func c06configsBase() []c06cfg {
 	return []c06cfg{
+		{Name: "targetdb", TargetDB: 2},
+		{Name: "dbblack+targetdb", DBBlack: []string{"1", "5"}, TargetDB: 5},
+		{Name: "dbwhite+targetdb", DBWhite: []string{"0", "5"}, TargetDB: 5},
+		{Name: "dbwhite+targetdb0", DBWhite: []string{"1", "2"}, TargetDB: 0},
+		{Name: "keyblack+targetdb", KeyBlack: []string{"no:"}, TargetDB: 1},
 		{Name: "none"},
 		{Name: "keyblack", KeyBlack: []string{"no:", "tmp"}},
 		{Name: "keywhite", KeyWhite: []string{"ok:", "k"}},
@@ -114,7 +131,11 @@ func c06expect(ks []c06key, cfg *c06cfg, path string) map[string]bool {
 		if path == "sync" && ref.SlotExcluded([]byte(k.Key)) {
 			continue
 		}
-		out[keyID(k.DB, k.Key)] = true
+		db := k.DB
+		if cfg.TargetDB != -1 {
+			db = cfg.TargetDB
+		}
+		out[keyID(db, k.Key)] = true
 	}
 	return out
 }
@@ -374,7 +395,11 @@ func runC06paths(r resIface, cfg *c06cfg, rng *prng.R, scratch string, idx int) 
 				if isCkpt(k.Key) {
 					continue
 				}
-				id := keyID(k.DB, k.Key)
+				db := k.DB
+				if cfg.TargetDB != -1 {
+					db = cfg.TargetDB
+				}
+				id := keyID(db, k.Key)
 				if a[id] != b[id] {
 					r.Violation(sig(paths[i]+"-vs-"+paths[j], "paths-disagree"), fmt.Sprintf("key %s under %s: %s path copied=%v, %s path copied=%v", id, cfg.Name, paths[i], a[id], paths[j], b[id]), cfg)
 					return
